@@ -9,7 +9,7 @@ From mathcomp Require Import all_ssreflect all_algebra.
 Set Implicit Arguments.
 Unset Strict Implicit.
 Unset Printing Implicit Defensive.
-Import GRing.Theory.
+Import GRing.Theory Num.Theory.
 Local Open Scope ring_scope.
 
 Section General.
@@ -37,3 +37,58 @@ Section General.
   Theorem fit_exact_general : hankelM \in unitmx -> invmx hankelM *m dataV = coefV.
   Proof. by move=> U; rewrite data_eq mulmxA mulVmx // mul1mx. Qed.
 End General.
+
+(* hankel_nonsingular: "the full angular range the orders need and at least a
+   few pixels" made precise -- non-negative weights, and N pixels of positive
+   weight with pairwise different abscissae (cos or cos^2 of the polar angle)
+   make the N x N Hankel matrix invertible (it is V^T diag(w) V, V Vandermonde:
+   a polynomial of degree < N with N roots vanishes). *)
+Section Nonsingular.
+  Variable F : realFieldType.
+  Variables (K N : nat) (w x : 'I_K -> F).
+  Hypothesis wge0 : forall k, 0 <= w k.
+  (* N pixels with positive weight and pairwise different abscissae *)
+  Variable f : 'I_N -> 'I_K.
+  Hypothesis wpos : forall i, 0 < w (f i).
+  Hypothesis xinj : injective (x \o f).
+
+  Lemma horner_rVpolyE (v : 'rV[F]_N) (t : F) : (rVpoly v).[t] = \sum_(i < N) v 0 i * t ^+ i.
+  Proof.
+    rewrite /rVpoly horner_poly. apply: eq_bigr => i _. by rewrite valK.
+  Qed.
+
+  Lemma shuffle (a b c d e : F) : a * (b * (c * d)) * e = b * (a * c) * (e * d).
+  Proof. rewrite mulrCA. rewrite [a * (c * d)]mulrA. rewrite -!mulrA. by rewrite [d * e]mulrC. Qed.
+
+  Lemma quad_form (v : 'rV[F]_N) :
+    (v *m hankelM N w x *m v^T) 0 0 = \sum_k w k * ((rVpoly v).[x k]) ^+ 2.
+  Proof.
+    rewrite !mxE.
+    transitivity (\sum_j \sum_j0 \sum_k w k * (v 0 j0 * x k ^+ j0) * (v 0 j * x k ^+ j)).
+      apply: eq_bigr => j _. rewrite !mxE mulr_suml. apply: eq_bigr => j0 _.
+      rewrite !mxE mulr_sumr mulr_suml. apply: eq_bigr => k _. by rewrite exprD shuffle.
+    rewrite exchange_big /= (eq_bigr (fun j0 => \sum_k \sum_j w k * (v 0 j0 * x k ^+ j0) * (v 0 j * x k ^+ j))); last first.
+      by move=> j0 _; rewrite exchange_big.
+    rewrite exchange_big /=. apply: eq_bigr => k _.
+    rewrite horner_rVpolyE expr2 big_distrlr /= mulr_sumr. apply: eq_bigr => j0 _.
+    rewrite mulr_sumr. apply: eq_bigr => j _. by rewrite -mulrA.
+  Qed.
+
+  Theorem hankel_nonsingular : hankelM N w x \in unitmx.
+  Proof.
+    rewrite -row_free_unit -kermx_eq0. apply/rowV0P => v /sub_kermxP vH0.
+    have q0 : \sum_k w k * ((rVpoly v).[x k]) ^+ 2 = 0.
+      by rewrite -quad_form vH0 mul0mx mxE.
+    have term0 k : w k * ((rVpoly v).[x k]) ^+ 2 = 0.
+      apply: (psumr_eq0P (P := predT) _ q0) => // i _. by rewrite mulr_ge0 // sqr_ge0.
+    have roots i : root (rVpoly v) (x (f i)).
+      rewrite /root. have := term0 (f i). move/eqP. rewrite mulf_eq0 (negbTE (lt0r_neq0 (wpos i))) /=.
+      by rewrite sqrf_eq0.
+    have P0 : rVpoly v = 0.
+      apply: (@roots_geq_poly_eq0 _ _ (map (x \o f) (enum 'I_N))).
+      - apply/allP => t /mapP [i _ ->]. exact: roots.
+      - by rewrite (map_inj_uniq xinj) enum_uniq.
+      - rewrite size_map size_enum_ord. exact: size_poly.
+    by rewrite -(rVpolyK v) P0 linear0.
+  Qed.
+End Nonsingular.
